@@ -80,7 +80,7 @@ func rule131(r *core.Run, ctx *oblig.Ctx, fn *ssa.Function) {
 				// guarded only by tests on IsTruncated / last != nil
 				okG := true
 				for _, g := range core.GuardsOf(m) {
-					gs := r.P.SliceOf(g.If.Cond, core.SliceOpts{Depth: -1})
+					gs := r.P.SliceOf(g.If.Cond, core.SliceOpts{Depth: -1, Control: true})
 					if gs.Has("field:gofakes3.ListBucketVersionsResult.IsTruncated") || gs.Has("const:nil") {
 						continue
 					}
@@ -221,7 +221,7 @@ func rule134(r *core.Run, fn *ssa.Function) {
 				if loopIf != nil && g.If != loopIf && core.BlockDominates(g.If.Block(), loopIf.Block()) {
 					continue // a guard of the whole loop, not of one entry
 				}
-				gs := r.P.SliceOf(g.If.Cond, core.SliceOpts{Depth: -1})
+				gs := r.P.SliceOf(g.If.Cond, core.SliceOpts{Depth: -1, Control: true})
 				cd := core.CondOf(g.If.Cond)
 				if eq, ok := g.Equality(); ok && eq && gs.HasPrefix("call:invoke:gofakes3.VersionItem.GetVersionID") && gs.Has("const:") {
 					okGuard = true
@@ -249,7 +249,7 @@ func rule134(r *core.Run, fn *ssa.Function) {
 			s := r.P.SliceOf(st.Val, core.SliceOpts{Depth: -1})
 			okG := false
 			for _, g := range core.GuardsOf(st) {
-				gs := r.P.SliceOf(g.If.Cond, core.SliceOpts{Depth: -1})
+				gs := r.P.SliceOf(g.If.Cond, core.SliceOpts{Depth: -1, Control: true})
 				cd := core.CondOf(g.If.Cond)
 				if gs.Has("field:s3mem.bucket.versioning") && gs.Has("const:") && ((cd.Op == token.NEQ) == (g.Branch != cd.Neg)) {
 					okG = true
@@ -271,8 +271,8 @@ func rule135(r *core.Run, ctx *oblig.Ctx, fn *ssa.Function) {
 	for _, st := range resultFieldStores(r, fn, "gofakes3.ListBucketVersionsResult.Versions") {
 		appends = append(appends, st)
 	}
-	if len(appends) < 2 {
-		r.Unresolved("R13.5: %d appends to result.Versions found (expected 2)", len(appends))
+	if len(appends) < 1 {
+		r.Unresolved("R13.5: no append to result.Versions found")
 		return
 	}
 	// the bound test
@@ -368,7 +368,7 @@ func rule136(r *core.Run) {
 		}
 		gs := 0
 		for _, g := range core.GuardsOf(ret) {
-			cs := r.P.SliceOf(g.If.Cond, core.SliceOpts{Depth: -1})
+			cs := r.P.SliceOf(g.If.Cond, core.SliceOpts{Depth: -1, Control: true})
 			if cs.Has("field:gofakes3.ListBucketVersionsPage.HasVersionIDMarker") || cs.Has("field:gofakes3.ListBucketVersionsPage.HasKeyMarker") || cs.Has("field:gofakes3.ListBucketVersionsPage.VersionIDMarker") {
 				gs++
 			}
@@ -433,7 +433,7 @@ func rule137(r *core.Run, fn *ssa.Function) {
 			wantMarker := strings.Contains(field, "DeleteMarker")
 			okArm := false
 			for _, g := range core.GuardsOf(st) {
-				gs := r.P.SliceOf(g.If.Cond, core.SliceOpts{Depth: -1})
+				gs := r.P.SliceOf(g.If.Cond, core.SliceOpts{Depth: -1, Control: true})
 				if gs.Has("field:s3mem.bucketData.deleteMarker") && gs.Has("call:s3mem.(*bucketObjectIterator).Value") {
 					cd := core.CondOf(g.If.Cond)
 					truth := g.Branch != cd.Neg
@@ -449,7 +449,7 @@ func rule137(r *core.Run, fn *ssa.Function) {
 	for i, st := range resultFieldStores(r, fn, "gofakes3.ListBucketVersionsResult.Versions") {
 		matchOK, notCommon := false, false
 		for _, g := range core.GuardsOf(st) {
-			gs := r.P.SliceOf(g.If.Cond, core.SliceOpts{Depth: -1})
+			gs := r.P.SliceOf(g.If.Cond, core.SliceOpts{Depth: -1, Control: true})
 			cd := core.CondOf(g.If.Cond)
 			truth := g.Branch != cd.Neg
 			if gs.Has("call:gofakes3.(Prefix).Match") && gs.Has("field:s3mem.bucketObject.name") && truth {
